@@ -726,6 +726,9 @@ type Store struct {
 
 	cancel     context.CancelFunc
 	PutLoopEnd chan struct{}
+	// Records is the real location record array underneath the index (for
+	// diagnostics: dumping the table next to a violation).
+	Records local.LocationRecordArray
 
 	relMu   sync.Mutex
 	relTask *Task
@@ -802,6 +805,7 @@ func Build(c Config, m *Media) (*Store, error) {
 	} else {
 		arr = local.NewBlockDeviceBackedLocationRecordArray(m.Index, s.LBM)
 	}
+	s.Records = arr
 	klm := local.NewHashingKeyLocationMap(arr, c.TableSize(), s.HashInit, c.GetAttempts, c.PutAttempts, label)
 	s.KLM = &KLMWrap{KeyLocationMap: klm, log: s.Log, pops: &s.BL.Pops, Last: map[local.Key]AbsLocation{}, gate: s.Gate}
 
